@@ -510,6 +510,29 @@ class Scripts:
                     # the other call that selects explicit-header mode
                     self.emit('lora_tx_set_explicit_header %d %d' % (r.randint(0, 1), r.choice([1, 2, 3, 4])))
                     implicit = None
+                if c > 0.8:
+                    # one handle, both modems: an FSK/OOK transmission in between (completed, or
+                    # abandoned in the middle of a long frame), then back to LoRa reception
+                    fm = r.choice([FSK, OOK])
+                    abandoned = r.random() < 0.5
+                    self.emit('set_opmod 0 0x80')
+                    self.emit('set_opmod 0 %d' % fm)
+                    self.emit('set_opmod 1 %d' % fm)
+                    self.emit('fsk_ook_set_packet_format 0x80 255')
+                    self.emit('write_register 0x3f 0x10')
+                    k = r.randint(70, 200) if abandoned else r.randint(1, 40)
+                    self.emit('fsk_ook_tx_set_for_transmission %s' % self.api.bytes_hex(k))
+                    self.emit('set_opmod 3 %d' % fm)
+                    if not abandoned:
+                        for _ in range(k + 1):
+                            self.emit('env txshift')
+                        self.emit('env txsent')
+                        self.emit('irq')
+                        self.emit('env chip f 0x3f 0')
+                    self.emit('set_opmod 0 %d' % fm)
+                    self.emit('write_register 0x3f 0x10')
+                    self.emit('set_opmod 0 0x80')
+                    self.emit('set_opmod 5 0x80')
                 n_b = implicit if implicit else r.choice([1, 2, 3, 64, 255, r.randint(1, 255)])
                 if implicit and r.random() < 0.9:
                     # in implicit-header mode the chip reports the configured length in RxNbBytes
@@ -666,11 +689,15 @@ class Scripts:
                 if filt and fixed_len < 2:
                     fixed_len = 2
                 self.emit('fsk_ook_set_packet_format 0 %d' % fixed_len)
-            if r.random() < 0.2:
+            if r.random() < 0.3:
                 # both modems are configured while asleep, then the receiver listens in FSK/OOK
                 self.emit('set_opmod 0 0x80')
                 self.emit('lora_set_bandwidth 0x70')
-                self.emit('lora_set_implicit_header NULL')
+                if r.random() < 0.5:
+                    self.emit('lora_set_implicit_header NULL')
+                else:
+                    # the LoRa side expects headerless packets of a fixed length
+                    self.emit('lora_set_implicit_header %d 1 2' % r.choice([1, 10, 64, 255]))
                 self.emit('lora_set_modem_config_2 %d' % r.choice([0x70, 0x90, 0xc0]))
                 self.emit('lora_set_syncword 0x12')
                 self.emit('set_opmod 0 %d' % mod)
@@ -917,6 +944,26 @@ class Scripts:
                         calls.append('fsk_ook_tx_set_for_transmission_with_address %s 0x22' % hexp)
                     else:
                         calls.append('fsk_ook_tx_set_for_transmission %s' % hexp)
+                pre = r.random()
+                if pre < 0.2:
+                    # a transmission abandoned in the middle of a long frame comes first
+                    self.emit('write_register 0x3f 0x10')
+                    self.emit('fsk_ook_tx_set_for_transmission %s' % self.api.bytes_hex(r.randint(70, 200 if variable else min(200, maxlen_fixed))))
+                    self.emit('set_opmod 3 %d' % mod)
+                    if r.random() < 0.5:
+                        for _ in range(40):
+                            self.emit('env txshift')
+                        self.emit('irq')
+                    self.emit('set_opmod 1 %d' % mod)
+                elif pre < 0.35 and variable:
+                    # half duplex: a long reception is in progress (one batch already read) when the application turns to transmit
+                    self.emit('write_register 0x3f 0x10')
+                    self.emit('set_opmod 5 %d' % mod)
+                    self.emit('env rxbyte 120')
+                    for _ in range(39):
+                        self.emit('env rxbyte %d' % r.randint(0, 255))
+                    self.emit('irq')
+                    self.emit('set_opmod 1 %d' % mod)
                 self.emit('write_register 0x3f 0x10')  # flush
                 self.emit('set_opmod 3 %d' % mod)
                 if behaviour == 'leave':
